@@ -44,6 +44,30 @@ a literal copy of the Python text is decided HERE, once, and is what must be rea
 * A Python `int` is a Lean `Int`; `%` and `//` are the floor versions (`Int.fmod`, `Int.fdiv`) with
   `ZeroDivisionError` on a zero divisor; `==` is decidable equality.
 * An `int` met in float arithmetic is converted (`IntCast α`); an integer LITERAL there is the literal of `α`.
+
+LOOPS (second half of this file).
+* A loop is a call of `forList` (a `for`) or `whileLoop` (a `while`) on a BODY FUNCTION from the LOOP STATE — the tuple,
+  in order of first assignment, of the variables the body assigns that are live outside one iteration — to
+  `M (Ctl σ ρ)`: `.cont s` = the iteration ended (fell off the end of the body, or `continue`) with state `s`,
+  `.brk s` = `break`, `.ret r` = `return r` from inside the loop. The loop itself yields `M (Out σ ρ)`: `.done s` = the loop
+  ended normally or by `break` with state `s` (Python does not distinguish them unless the loop has an `else`
+  clause, which is not accepted), `.ret r` = the function returned from inside the loop.
+* `for i in range(a, b)`: `forList body (range a b) s`, `range a b = [a, a+1, …, b-1]` (empty when `b ≤ a`), evaluated ONCE
+  before the loop as in Python; `range(a, b, step)`: `rangeStep`, `ValueError` on step 0. `for x in L`: `forList body L s`
+  (the translator only accepts a list that the body does not modify). The loop variable is a parameter of the body.
+* `while c: B`: `whileLoop body fuel s` with `body s = if c then ⟦B⟧ else .ok (.brk s)`: at most `fuel` evaluations of the body;
+  when the fuel is exhausted the result is `.error .fuel` — never a value. `fuel` is a parameter of the generated
+  definition; a tie theorem says for which fuels (all those above a bound) the definition returns the model's value.
+* `L[i]` with a computed `i` (`getIdx`): Python's rule — `i` itself when `0 ≤ i < len(L)`, `len(L) + i` when
+  `-len(L) ≤ i < 0`, `IndexError` otherwise. `len(L)` is `(L.length : Int)`.
+* A variable that is assigned only inside a loop / a branch and read later (`xproj` of `proj_polyligne`) has type
+  `Option τ` (`none` = not yet bound); reading it is `getBound`: `UnboundLocalError` on `none`.
+* `b * k` with `b` a bool and `k` an int: `True` is 1, `False` is 0. `a ** e` on two ints (`ipow`): `a ^ e` when `e ≥ 0`; when `e < 0`
+  Python returns a float, which cannot be typed: the error value `Err.type` (to be excluded by the tie's hypotheses).
+* `a >> k` on ints (`ishr`): the floor shift `Int.shiftRight` (so `-1 >> 1 == -1`), `ValueError` on a negative count; `abs` on an int
+  (`iabs`); `min` / `max` of ints (`imin` / `imax`, n-ary ones folded from the left: CPython's "first among the smallest / greatest").
+* `x in L` / `x not in L` on a list of ints / tuples of ints: `List.elem` with decidable equality (`contains`).
+  `L.remove(v)`: `List.erase` (first occurrence), `ValueError` if absent.
 -/
 namespace TV.Py
 
@@ -53,8 +77,9 @@ inductive Err where
   | index     -- IndexError
   | type      -- TypeError (e.g. subscripting `None`)
   | exit      -- SystemExit (`exit()`; never produced by the translator, present for the same reason as `unbound`)
-  | unbound   -- UnboundLocalError (never produced by the translator: a possibly unbound name is refused;
-              -- present so that the error types of the models embed into this one)
+  | unbound   -- UnboundLocalError: a variable declared "maybe unbound" in the signature read before it was assigned
+  | value     -- ValueError (`range(a, b, 0)`, `L.remove(v)` with `v` absent)
+  | fuel      -- NOT a Python exception: the fuel of a `while` loop ran out (the Python loop would still be running)
   deriving DecidableEq, Repr
 
 /-- result of a Python call: a value or an exception -/
@@ -124,5 +149,235 @@ def getItem {β : Type} (l : List β) (k : Nat) : M β :=
 
 /-- int `a // b` (floor) -/
 @[inline] def ifloordiv (a b : Int) : M Int := if b = 0 then .error .zerodiv else .ok (Int.fdiv a b)
+
+/-! ## Loops, computed indices, possibly-unbound variables -/
+
+/-- what one evaluation of a loop body says: go on (`continue` / end of the body), `break`, or `return r` -/
+inductive Ctl (σ ρ : Type) where
+  | cont (s : σ)
+  | brk (s : σ)
+  | ret (r : ρ)
+
+/-- what a loop says to the code after it: the final state, or "the function returned `r`" -/
+inductive Out (σ ρ : Type) where
+  | done (s : σ)
+  | ret (r : ρ)
+
+/-- `for x in l: body` from state `s` -/
+def forList {β σ ρ : Type} (body : β → σ → M (Ctl σ ρ)) : List β → σ → M (Out σ ρ)
+  | [], s => .ok (.done s)
+  | x :: xs, s =>
+    match body x s with
+    | .error e => .error e
+    | .ok (.cont s') => forList body xs s'
+    | .ok (.brk s') => .ok (.done s')
+    | .ok (.ret r) => .ok (.ret r)
+
+/-- `while …: body` from state `s`, at most `fuel` evaluations of the body (the loop test is part of the body) -/
+def whileLoop {σ ρ : Type} (body : σ → M (Ctl σ ρ)) : Nat → σ → M (Out σ ρ)
+  | 0, _ => .error .fuel
+  | f + 1, s =>
+    match body s with
+    | .error e => .error e
+    | .ok (.cont s') => whileLoop body f s'
+    | .ok (.brk s') => .ok (.done s')
+    | .ok (.ret r) => .ok (.ret r)
+
+@[simp] theorem forList_nil {β σ ρ : Type} (body : β → σ → M (Ctl σ ρ)) (s : σ) :
+    forList body [] s = .ok (.done s) := rfl
+theorem forList_cons {β σ ρ : Type} (body : β → σ → M (Ctl σ ρ)) (x : β) (xs : List β) (s : σ) :
+    forList body (x :: xs) s = (match body x s with
+      | .error e => .error e
+      | .ok (.cont s') => forList body xs s'
+      | .ok (.brk s') => .ok (.done s')
+      | .ok (.ret r) => .ok (.ret r)) := rfl
+theorem forList_cons_cont {β σ ρ : Type} {body : β → σ → M (Ctl σ ρ)} {x : β} {xs : List β} {s s' : σ}
+    (h : body x s = .ok (.cont s')) : forList body (x :: xs) s = forList body xs s' := by
+  rw [forList_cons, h]
+theorem forList_cons_brk {β σ ρ : Type} {body : β → σ → M (Ctl σ ρ)} {x : β} {xs : List β} {s s' : σ}
+    (h : body x s = .ok (.brk s')) : forList body (x :: xs) s = .ok (.done s') := by
+  rw [forList_cons, h]
+theorem forList_cons_ret {β σ ρ : Type} {body : β → σ → M (Ctl σ ρ)} {x : β} {xs : List β} {s : σ} {r : ρ}
+    (h : body x s = .ok (.ret r)) : forList body (x :: xs) s = .ok (.ret r) := by
+  rw [forList_cons, h]
+theorem forList_cons_error {β σ ρ : Type} {body : β → σ → M (Ctl σ ρ)} {x : β} {xs : List β} {s : σ} {e : Err}
+    (h : body x s = .error e) : forList body (x :: xs) s = .error e := by
+  rw [forList_cons, h]
+/-- a `for` over `l₁ ++ l₂` whose first part neither breaks nor returns is the `for` over `l₂` from the state reached -/
+theorem forList_append {β σ ρ : Type} (body : β → σ → M (Ctl σ ρ)) (l₁ l₂ : List β) (s s' : σ)
+    (h : forList body l₁ s = .ok (.done s')) (hnb : ∀ x ∈ l₁, ∀ t t', body x t ≠ .ok (.brk t')) :
+    forList body (l₁ ++ l₂) s = forList body l₂ s' := by
+  induction l₁ generalizing s with
+  | nil => simp only [forList_nil, Except.ok.injEq, Out.done.injEq] at h; subst h; rfl
+  | cons x xs ih =>
+    rw [List.cons_append, forList_cons]
+    rw [forList_cons] at h
+    cases hb : body x s with
+    | error e => rw [hb] at h; exact nomatch h
+    | ok c =>
+      rw [hb] at h
+      cases c with
+      | cont s1 => exact ih s1 h (fun y hy => hnb y (List.mem_cons_of_mem x hy))
+      | brk s1 => exact absurd hb (hnb x (List.mem_cons_self) s s1)
+      | ret r => exact nomatch h
+
+/-- a `for` whose body always ends normally (no `break` / `return` / exception on these elements) is a left fold -/
+theorem forList_eq_foldl {β σ ρ : Type} (body : β → σ → M (Ctl σ ρ)) (step : σ → β → σ) (l : List β) (s : σ)
+    (h : ∀ x ∈ l, ∀ t, body x t = .ok (.cont (step t x))) :
+    forList body l s = .ok (.done (l.foldl step s)) := by
+  induction l generalizing s with
+  | nil => rfl
+  | cons x xs ih =>
+    rw [forList_cons_cont (h x List.mem_cons_self s), List.foldl_cons]
+    exact ih _ (fun y hy => h y (List.mem_cons_of_mem x hy))
+
+@[simp] theorem whileLoop_zero {σ ρ : Type} (body : σ → M (Ctl σ ρ)) (s : σ) : whileLoop body 0 s = .error .fuel := rfl
+theorem whileLoop_succ {σ ρ : Type} (body : σ → M (Ctl σ ρ)) (f : Nat) (s : σ) :
+    whileLoop body (f + 1) s = (match body s with
+      | .error e => .error e
+      | .ok (.cont s') => whileLoop body f s'
+      | .ok (.brk s') => .ok (.done s')
+      | .ok (.ret r) => .ok (.ret r)) := rfl
+theorem whileLoop_cont {σ ρ : Type} {body : σ → M (Ctl σ ρ)} {f : Nat} {s s' : σ}
+    (h : body s = .ok (.cont s')) : whileLoop body (f + 1) s = whileLoop body f s' := by
+  rw [whileLoop_succ, h]
+theorem whileLoop_brk {σ ρ : Type} {body : σ → M (Ctl σ ρ)} {f : Nat} {s s' : σ}
+    (h : body s = .ok (.brk s')) : whileLoop body (f + 1) s = .ok (.done s') := by
+  rw [whileLoop_succ, h]
+theorem whileLoop_ret {σ ρ : Type} {body : σ → M (Ctl σ ρ)} {f : Nat} {s : σ} {r : ρ}
+    (h : body s = .ok (.ret r)) : whileLoop body (f + 1) s = .ok (.ret r) := by
+  rw [whileLoop_succ, h]
+theorem whileLoop_error {σ ρ : Type} {body : σ → M (Ctl σ ρ)} {f : Nat} {s : σ} {e : Err}
+    (h : body s = .error e) : whileLoop body (f + 1) s = .error e := by
+  rw [whileLoop_succ, h]
+/-- more fuel does not change a result that is not "out of fuel" -/
+theorem whileLoop_mono {σ ρ : Type} (body : σ → M (Ctl σ ρ)) (f g : Nat) (s : σ) (hfg : f ≤ g)
+    (h : whileLoop body f s ≠ .error .fuel) : whileLoop body g s = whileLoop body f s := by
+  induction f generalizing g s with
+  | zero => exact absurd rfl h
+  | succ f ih =>
+    cases g with
+    | zero => omega
+    | succ g =>
+      rw [whileLoop_succ] at h ⊢
+      rw [whileLoop_succ]
+      cases hb : body s with
+      | error e => rfl
+      | ok c =>
+        cases c with
+        | cont s1 => rw [hb] at h; exact ih g s1 (by omega) h
+        | brk s1 => rfl
+        | ret r => rfl
+
+/-- `[a, a+step, …]`, `n` elements -/
+def rangeFrom (a step : Int) : Nat → List Int
+  | 0 => []
+  | n + 1 => a :: rangeFrom (a + step) step n
+
+/-- `range(a, b)` -/
+def range (a b : Int) : List Int := rangeFrom a 1 (b - a).toNat
+
+theorem range_empty {a b : Int} (h : b ≤ a) : range a b = [] := by
+  unfold range; rw [Int.toNat_eq_zero.mpr (by omega)]; rfl
+theorem range_cons {a b : Int} (h : a < b) : range a b = a :: range (a + 1) b := by
+  unfold range
+  have h1 : (b - a).toNat = (b - (a + 1)).toNat + 1 := by omega
+  rw [h1]; rfl
+theorem rangeFrom_snoc (a step : Int) (n : Nat) : rangeFrom a step (n + 1) = rangeFrom a step n ++ [a + (n : Int) * step] := by
+  induction n generalizing a with
+  | zero => simp [rangeFrom]
+  | succ n ih =>
+    rw [rangeFrom, ih (a + step)]
+    simp only [rangeFrom, List.cons_append, List.cons.injEq, true_and, List.append_cancel_left_eq]
+    rw [Int.natCast_succ, Int.add_mul, Int.one_mul, Int.add_assoc, Int.add_comm step]
+    exact ⟨rfl, trivial⟩
+theorem range_snoc {a b : Int} (h : a ≤ b) : range a (b + 1) = range a b ++ [b] := by
+  unfold range
+  have h1 : (b + 1 - a).toNat = (b - a).toNat + 1 := by omega
+  rw [h1, rangeFrom_snoc]
+  congr 2
+  omega
+theorem mem_rangeFrom_one {a x : Int} {n : Nat} (h : x ∈ rangeFrom a 1 n) : a ≤ x ∧ x < a + n := by
+  induction n generalizing a with
+  | zero => exact nomatch h
+  | succ n ih =>
+    rw [rangeFrom, List.mem_cons] at h
+    rcases h with h | h
+    · omega
+    · have := ih h; omega
+theorem mem_range {a b x : Int} (h : x ∈ range a b) : a ≤ x ∧ x < b := by
+  have := mem_rangeFrom_one h; omega
+theorem rangeFrom_append (a : Int) (m n : Nat) : rangeFrom a 1 (m + n) = rangeFrom a 1 m ++ rangeFrom (a + (m : Int)) 1 n := by
+  induction m generalizing a with
+  | zero => simp [rangeFrom]
+  | succ m ih =>
+    rw [show m + 1 + n = (m + n) + 1 by omega, rangeFrom, rangeFrom, ih (a + 1), List.cons_append]
+    congr 3; omega
+theorem range_append {a b c : Int} (h1 : a ≤ b) (h2 : b ≤ c) : range a c = range a b ++ range b c := by
+  unfold range
+  have h : (c - a).toNat = (b - a).toNat + (c - b).toNat := by omega
+  rw [h, rangeFrom_append]
+  congr 2; omega
+theorem length_rangeFrom (a step : Int) (n : Nat) : (rangeFrom a step n).length = n := by
+  induction n generalizing a with
+  | zero => rfl
+  | succ n ih => simp [rangeFrom, ih]
+
+/-- `range(a, b, step)`: `a, a+step, …` while `< b` (step > 0) / `> b` (step < 0); `ValueError` when `step == 0` -/
+def rangeStep (a b step : Int) : M (List Int) :=
+  if step = 0 then .error .value
+  else if 0 < step then .ok (rangeFrom a step ((b - a + step - 1) / step).toNat)
+  else .ok (rangeFrom a step ((a - b + (-step) - 1) / (-step)).toNat)
+
+/-- `len(L)` -/
+@[inline] def len {β : Type} (l : List β) : Int := (l.length : Int)
+
+/-- `L[i]`, `i` any int: Python's negative indices, `IndexError` out of range -/
+def getIdx {β : Type} (l : List β) (i : Int) : M β :=
+  if 0 ≤ i then getItem l i.toNat
+  else if 0 ≤ len l + i then getItem l (len l + i).toNat
+  else .error .index
+
+theorem getIdx_natCast {β : Type} (l : List β) (k : Nat) : getIdx l (k : Int) = getItem l k := by
+  unfold getIdx; rw [if_pos (by omega)]; rfl
+theorem getIdx_nonneg {β : Type} (l : List β) {i : Int} (h : 0 ≤ i) : getIdx l i = getItem l i.toNat := by
+  unfold getIdx; rw [if_pos h]
+theorem getItem_eq_ok {β : Type} {l : List β} {k : Nat} {v : β} (h : l[k]? = some v) : getItem l k = .ok v := by
+  unfold getItem; rw [h]
+theorem getItem_eq_error {β : Type} {l : List β} {k : Nat} (h : l[k]? = none) : getItem l k = .error .index := by
+  unfold getItem; rw [h]
+
+/-- reading a variable that may not have been assigned yet -/
+@[inline] def getBound {β : Type} : Option β → M β
+  | some v => .ok v
+  | none => .error .unbound
+@[simp] theorem getBound_some {β : Type} (v : β) : getBound (some v) = .ok v := rfl
+@[simp] theorem getBound_none {β : Type} : getBound (none : Option β) = .error .unbound := rfl
+
+/-- `x in L` on values with decidable equality (ints, tuples of ints) -/
+@[inline] def contains {β : Type} [DecidableEq β] (l : List β) (x : β) : Bool := l.elem x
+
+/-- `L.remove(v)`: the list without the first element equal to `v`; `ValueError` when there is none.
+`eqv` is Python's `==` on the elements (the translator passes `feq` for floats, decidable equality for ints). -/
+def removeFirst {β : Type} (eqv : β → β → Bool) : List β → β → M (List β)
+  | [], _ => .error .value
+  | a :: r, v => if eqv a v then .ok r else
+      match removeFirst eqv r v with
+      | .ok r' => .ok (a :: r')
+      | .error e => .error e
+
+/-- int `a >> k` (floor shift), `ValueError` on a negative count -/
+@[inline] def ishr (a k : Int) : M Int := if k < 0 then .error .value else .ok (Int.shiftRight a k.toNat)
+
+/-- int `a ** e`: the int `a ^ e` for `e ≥ 0`. For `e < 0` Python returns a FLOAT (`2 ** -1 == 0.5`), which the translator cannot
+type: the result is then the error value `Err.type` (NOT Python's behaviour — a tie theorem has to exclude that case). -/
+@[inline] def ipow (a e : Int) : M Int := if e < 0 then .error .type else .ok (a ^ e.toNat)
+
+/-- int `abs` -/
+@[inline] def iabs (a : Int) : Int := if a < 0 then -a else a
+
+/-- int `min` / `max` of two (CPython: the first unless the second is strictly smaller / greater) -/
+@[inline] def imin (a b : Int) : Int := if b < a then b else a
+@[inline] def imax (a b : Int) : Int := if a < b then b else a
 
 end TV.Py
